@@ -54,3 +54,23 @@ Theorem C06_dmdc (R : fieldType) (p q r k : nat) (Psi : 'M[R]_(p,q)) (Thp : 'M[R
   normal_eq Psi Thp 0 (Thp *m Z *m invmx S *m Q^T).
 Proof. exact: Edmd.C06_dmdc. Qed.
 Print Assumptions C06_dmdc.
+
+(* ---------- about the code itself: the linear system Edmd._fit_regressor hands to lstsq, as
+   REGENERATED from the source on this run (tools/gen_regressors.py -> Gen/Regressors.v),
+   is the normal equations; an exact solution of it is the global minimiser *)
+From PK Require Import BridgeC06.
+From PK.Gen Require Import Regressors.
+
+Theorem C06_generated_system (R : fieldType) (p q r : nat) (X_unshifted : 'M[R]_(q,p)) (X_shifted : 'M[R]_(q,r))
+  (alpha : R) (coef : 'M[R]_(p,r)) : (q%:R : R) != 0 ->
+  (gen_edmd_lstsq_lhs X_unshifted alpha *m coef = gen_edmd_lstsq_rhs X_unshifted X_shifted)
+  <-> normal_eq X_unshifted^T X_shifted^T alpha coef^T.
+Proof. exact: gen_edmd_system_is_normal_eq. Qed.
+Print Assumptions C06_generated_system.
+
+Theorem C06_generated_optimal (R : realFieldType) (p q r : nat) (X_unshifted : 'M[R]_(q,p)) (X_shifted : 'M[R]_(q,r))
+  (alpha : R) (coef : 'M[R]_(p,r)) : (0 < q)%N -> 0 <= alpha ->
+  gen_edmd_lstsq_lhs X_unshifted alpha *m coef = gen_edmd_lstsq_rhs X_unshifted X_shifted ->
+  forall V, cost X_unshifted^T X_shifted^T alpha coef^T <= cost X_unshifted^T X_shifted^T alpha V.
+Proof. exact: gen_edmd_optimal. Qed.
+Print Assumptions C06_generated_optimal.
